@@ -245,31 +245,31 @@ func (c Cube) calcUVs() []vector2.Float64 {
 	}
 
 	if c.UVs.Left != nil {
-		uvs[1] = c.UVs.Bottom.StartLeft()
-		uvs[0] = c.UVs.Bottom.StartRight()
-		uvs[3] = c.UVs.Bottom.EndLeft()
-		uvs[2] = c.UVs.Bottom.EndRight()
+		uvs[1] = c.UVs.Left.StartLeft()
+		uvs[0] = c.UVs.Left.StartRight()
+		uvs[3] = c.UVs.Left.EndLeft()
+		uvs[2] = c.UVs.Left.EndRight()
 	}
 
 	if c.UVs.Right != nil {
-		uvs[4] = c.UVs.Bottom.StartLeft()
-		uvs[5] = c.UVs.Bottom.StartRight()
-		uvs[6] = c.UVs.Bottom.EndLeft()
-		uvs[7] = c.UVs.Bottom.EndRight()
+		uvs[4] = c.UVs.Right.StartLeft()
+		uvs[5] = c.UVs.Right.StartRight()
+		uvs[6] = c.UVs.Right.EndLeft()
+		uvs[7] = c.UVs.Right.EndRight()
 	}
 
 	if c.UVs.Front != nil {
-		uvs[0] = c.UVs.Bottom.StartLeft()
-		uvs[4] = c.UVs.Bottom.StartRight()
-		uvs[2] = c.UVs.Bottom.EndLeft()
-		uvs[6] = c.UVs.Bottom.EndRight()
+		uvs[0] = c.UVs.Front.StartLeft()
+		uvs[4] = c.UVs.Front.StartRight()
+		uvs[2] = c.UVs.Front.EndLeft()
+		uvs[6] = c.UVs.Front.EndRight()
 	}
 
-	if c.UVs.Front != nil {
-		uvs[5] = c.UVs.Bottom.StartLeft()
-		uvs[1] = c.UVs.Bottom.StartRight()
-		uvs[7] = c.UVs.Bottom.EndLeft()
-		uvs[3] = c.UVs.Bottom.EndRight()
+	if c.UVs.Back != nil {
+		uvs[5] = c.UVs.Back.StartLeft()
+		uvs[1] = c.UVs.Back.StartRight()
+		uvs[7] = c.UVs.Back.EndLeft()
+		uvs[3] = c.UVs.Back.EndRight()
 	}
 
 	return uvs
